@@ -56,9 +56,9 @@ ASSUMPTIONS = [
     "the random reader delivers the bytes of the stream in order (io.ReadFull semantics); no other reader errors",
 ]
 RULE = ("seeded generator (VERIF_SEED): keys {1,2,n-2,n-3, random, d/X/Y with 1-3 leading zero bytes}; message lengths {0,1,31..33,55,56,63..65,119..129,1000,4096,65535,65536}; "
-        "IDs {nil, default, 1, 16, 8191, 8192, 8193 bytes}; nonce streams {random, all-zero, all-ff, k=n-1, short}; for every valid base tuple the rejection catalogue: "
+        "IDs {nil, default, 1, 16, 8191, 8192, 8193 bytes and a seeded spread: 2..15, 17..64, powers of two +-1 up to 4097, 8188..8190, 65..8125}; message lengths additionally 4097 and two seeded values in 4098..65534; nonce streams {random, all-zero, all-ff, k=n-1, short}; for every valid base tuple the rejection catalogue: "
         "bit flips of message/ID/r/s/X/Y, r,s in {0,n,n+r,-r,2^256,...}, r+s=n, other keys, hash variants, DER variants {non-minimal, negative, long-form, indefinite, trailing, "
-        "wrong tags, SET, three integers, empty, truncations, byte changes}; consumer leg (op W): the whole P catalogue again through gmtls verifyHandshakeSignature (SM2 and ECDSA-on-SM2 branches) and x509 CheckSignature; concurrent leg (op C): 2 / 8 / 32 goroutines released together, each signing 8 / 8 / 4 messages on its own yielding reader, every signature compared with the pair its own stream prescribes and all r required to be pairwise distinct. A case is non-trivial unless both message and id are empty; distinct = distinct case text")
+        "wrong tags, SET, three integers, empty, truncations, byte changes}; the full DER catalogue on four eligible bases rotating with the seed (thorough: all); public keys off the curve must be rejected (predicate: false); consumer leg (op W): every P case through two of the three consumers, rotating (thorough: all three): gmtls verifyHandshakeSignature (SM2 and ECDSA-on-SM2 branches) and x509 CheckSignature; concurrent leg (op C): 2 / 8 / 32 goroutines released together, each signing 8 / 8 / 4 messages on its own yielding reader, every signature compared with the pair its own stream prescribes and all r required to be pairwise distinct. A case is non-trivial unless both message and id are empty; distinct = distinct case text")
 
 
 def nontrivial(f):
@@ -139,24 +139,22 @@ def predicate(f, io):
         return True, ""
     if op in ("V", "H", "P"):
         pub = (o.zint(f[2]), o.zint(f[3]))
-        if not o.on_curve(pub):
-            # a public key that is not a curve point is outside the standard; decided by the model comparison only
-            want = None if op != "P" or o.der_sig_decode(o.unhex(f[5])) is not None else False
+        # a "public key" that is not a point of the curve (perturbed X / Y, coordinates >= p, (0,0)) is not a key of the
+        # standard: GM/T 0003.2 verification presupposes a valid PA, so the property demands rejection
+        valid_key = o.on_curve(pub)
         if op == "V":
             r, s = o.zint(f[6]), o.zint(f[7])
             e = o.msg_e(pub, _uid(f[4]), o.unhex(f[5]))
-            want = False if e is None else (_expect_verify(pub, e, r, s) if o.on_curve(pub) else (False if not (1 <= r < o.N and 1 <= s < o.N and (r + s) % o.N) else None))
+            want = False if (e is None or not valid_key) else _expect_verify(pub, e, r, s)
         elif op == "H":
             r, s = o.zint(f[5]), o.zint(f[6])
-            e = o.os2ip(o.unhex(f[4]))
-            want = _expect_verify(pub, e, r, s) if o.on_curve(pub) else (False if not (1 <= r < o.N and 1 <= s < o.N and (r + s) % o.N) else None)
+            want = _expect_verify(pub, o.os2ip(o.unhex(f[4])), r, s) if valid_key else False
         else:
             rs = o.der_sig_decode(o.unhex(f[5]))
-            if rs is None:
+            if rs is None or not valid_key:
                 want = False
             else:
-                e = o.msg_e(pub, o.DEFAULT_ID, o.unhex(f[4]))
-                want = _expect_verify(pub, e, rs[0], rs[1]) if o.on_curve(pub) else (False if not (1 <= rs[0] < o.N and 1 <= rs[1] < o.N and (rs[0] + rs[1]) % o.N) else None)
+                want = _expect_verify(pub, o.msg_e(pub, o.DEFAULT_ID, o.unhex(f[4])), rs[0], rs[1])
         if io[0] != "ok" or len(io) < 2:
             return False, "verifier returned no boolean"
         got = io[1] == "1"
